@@ -6,14 +6,25 @@
 //! hashers, SmallMap across promotion, and the three stub storage presets (modelled as stubs).
 //! S-only cells: GoldHashMap (presets + custom configs, u32/u64 links), GoldHashIdx, EasyHashMap,
 //! HashStrMap, with collisions forced through the key's Hash impl.
+//!
+//! Breadth (design/C06.md "Oracle breadth"): besides insert/remove/get/get_mut/contains_key/len/iter/clear the
+//! histories contain the secondary entry points of every type - housekeeping (op 8: reserve, shrink_to_fit,
+//! revoke_deleted, set_hash_caching, set_auto_grow, set_max_load_factor, statistics, Debug), Clone / PartialEq (op 9),
+//! bulk insertion (op 10: insert_batch, extend, Extend, FromIterator), alternative lookups (op 11: get_batch,
+//! get_or_default, get_by_fast_str, is_interned), get_or_insert(_with) (op 12), retain (op 13) and alternative
+//! iteration (op 14: iter()/iter_fast(), keys()/values(), partial iteration, ExactSizeIterator) - all judged by the
+//! same BTreeMap shadow; every constructor / preset / builder option; rarely used key and value types (u8, i64/i32,
+//! String/String, (), (u32,u32)/u128, [u64;130]); the library's own hash functions as the caller-supplied hasher;
+//! threshold sweeps and fills past 2^16 entries (described by (kind, n, seed) in the case JSON).
+#[path = "c06_wide.rs"]
+mod wide;
 use crate::util::*;
 use serde_json::{json, Value};
 use std::collections::BTreeMap;
-use std::hash::{BuildHasher, Hash, Hasher};
-use zipora::containers::specialized::{EasyHashMap, GoldHashIdx, HashStrMap, SmallMap};
+use std::hash::{Hash, Hasher};
+use wide::*;
 use zipora::hash_map::{
-    GoldHashMap, GoldHashMapConfig, HashStrategy, IterationStrategy, OptimizationStrategy,
-    StorageStrategy, ZiporaHashMap, ZiporaHashMapConfig,
+    GoldHashMapConfig, HashStrategy, IterationStrategy, OptimizationStrategy, StorageStrategy, ZiporaHashMapConfig,
 };
 use zipora::memory::{SecureMemoryPool, SecurePoolConfig};
 
@@ -55,224 +66,11 @@ Definition ok (c : case_t) : bool :=
 "#;
 
 // ---------------------------------------------------------------------------------------------
-// caller-supplied hashers (mirrored by `hasher` in coq/C06/Model.v)
-// ---------------------------------------------------------------------------------------------
-const N_HASHERS: u64 = 10;
-fn hash_mode(mode: u64, k: u64) -> u64 {
-    match mode {
-        0 => { let x = k.wrapping_mul(11400714819323198485); x ^ (x >> 32) }
-        1 => k,
-        2 => 0,
-        3 => u64::MAX,
-        4 => k % 4,
-        5 => if k == 0 { 0 } else if k == 1 { u64::MAX } else { k },
-        6 => k << 60,
-        7 => u64::MAX - (k % 3),
-        8 => (k % 3) * 16,
-        _ => k % 2,
-    }
-}
-#[derive(Clone, Default)]
-struct ModeBuild(u64);
-struct ModeHasher { mode: u64, acc: u64 }
-impl Hasher for ModeHasher {
-    fn finish(&self) -> u64 { hash_mode(self.mode, self.acc) }
-    fn write(&mut self, bytes: &[u8]) { for &b in bytes { self.acc = (self.acc << 8) | b as u64; } }
-    fn write_u64(&mut self, i: u64) { self.acc = i; }
-}
-impl BuildHasher for ModeBuild {
-    type Hasher = ModeHasher;
-    fn build_hasher(&self) -> ModeHasher { ModeHasher { mode: self.0, acc: 0 } }
-}
-
-/// Key for the maps whose hasher is fixed: equality on `id`, hashing on `bucket` only, so that
-/// collisions are chosen by the generator whatever hash function the map uses.
-#[derive(Clone, Debug, PartialEq, Eq)]
-struct CKey { id: u64, bucket: u64 }
-impl Hash for CKey { fn hash<H: Hasher>(&self, s: &mut H) { s.write_u64(self.bucket); } }
-fn ckey(collide: u64, id: u64) -> CKey {
-    CKey { id, bucket: match collide { 0 => id, 1 => id % 4, 2 => 0, _ => id % 2 } }
-}
-
-// ---------------------------------------------------------------------------------------------
-// uniform view of the implementations
-// ---------------------------------------------------------------------------------------------
-type R<T> = Result<T, String>; // Err = the API returned an error
-
-trait Mut {
-    fn insert(&mut self, k: u64, v: u64) -> Option<R<Option<u64>>>;   // None = op not offered
-    fn remove(&mut self, k: u64) -> Option<R<Option<u64>>>;
-    fn get(&mut self, k: u64) -> Option<Option<u64>>;
-    fn get_mut_set(&mut self, k: u64, v: u64) -> Option<Option<u64>>;
-    fn contains(&mut self, k: u64) -> Option<bool>;
-    fn len(&mut self) -> Option<usize>;
-    fn iter(&mut self) -> Option<Vec<(u64, u64)>>;
-    fn clear(&mut self) -> Option<()>;
-    /// internal observables for the model comparison only: iteration in the order yielded, scalars
-    fn raw(&mut self) -> Option<(Vec<(u64, u64)>, Vec<u64>)> { None }
-    /// housekeeping that must not change what the map holds (shrink_to_fit / reserve / revoke_deleted); None = the type has none
-    fn maintain(&mut self, _which: u64) -> Option<()> { None }
-}
-
-struct Zip(ZiporaHashMap<u64, u64, ModeBuild>);
-impl Mut for Zip {
-    fn insert(&mut self, k: u64, v: u64) -> Option<R<Option<u64>>> { Some(self.0.insert(k, v).map_err(|e| format!("{:?}", e))) }
-    fn remove(&mut self, k: u64) -> Option<R<Option<u64>>> { Some(Ok(self.0.remove(&k))) }
-    fn get(&mut self, k: u64) -> Option<Option<u64>> { Some(self.0.get(&k).copied()) }
-    fn get_mut_set(&mut self, k: u64, v: u64) -> Option<Option<u64>> { Some(self.0.get_mut(&k).map(|r| std::mem::replace(r, v))) }
-    fn contains(&mut self, k: u64) -> Option<bool> { Some(self.0.contains_key(&k)) }
-    fn len(&mut self) -> Option<usize> {
-        let n = self.0.len();
-        if self.0.is_empty() != (n == 0) { return Some(usize::MAX); }
-        Some(n)
-    }
-    fn iter(&mut self) -> Option<Vec<(u64, u64)>> { Some(self.0.iter().map(|(k, v)| (*k, *v)).collect()) }
-    fn clear(&mut self) -> Option<()> { self.0.clear(); Some(()) }
-    fn raw(&mut self) -> Option<(Vec<(u64, u64)>, Vec<u64>)> {
-        Some((self.0.iter().map(|(k, v)| (*k, *v)).collect(), vec![self.0.capacity() as u64]))
-    }
-}
-
-/// String keys, looked up through &str (the Borrow<Q> path: hash_key_borrowed vs hash_key)
-struct ZipStr(ZiporaHashMap<String, u64, ModeBuild>);
-impl Mut for ZipStr {
-    fn insert(&mut self, k: u64, v: u64) -> Option<R<Option<u64>>> { Some(self.0.insert(skey(k), v).map_err(|e| format!("{:?}", e))) }
-    fn remove(&mut self, k: u64) -> Option<R<Option<u64>>> { Some(Ok(self.0.remove(skey(k).as_str()))) }
-    fn get(&mut self, k: u64) -> Option<Option<u64>> { Some(self.0.get(skey(k).as_str()).copied()) }
-    fn get_mut_set(&mut self, k: u64, v: u64) -> Option<Option<u64>> { Some(self.0.get_mut(skey(k).as_str()).map(|r| std::mem::replace(r, v))) }
-    fn contains(&mut self, k: u64) -> Option<bool> { Some(self.0.contains_key(skey(k).as_str())) }
-    fn len(&mut self) -> Option<usize> { Some(self.0.len()) }
-    fn iter(&mut self) -> Option<Vec<(u64, u64)>> {
-        Some(self.0.iter().map(|(k, v)| (k.trim_start_matches("key-").parse::<u64>().unwrap_or(u64::MAX), *v)).collect())
-    }
-    fn clear(&mut self) -> Option<()> { self.0.clear(); Some(()) }
-}
-
-struct Gold<L: zipora::hash_map::LinkType>(GoldHashMap<CKey, u64, L>, u64);
-impl<L: zipora::hash_map::LinkType> Mut for Gold<L> {
-    fn insert(&mut self, k: u64, v: u64) -> Option<R<Option<u64>>> { Some(self.0.insert(ckey(self.1, k), v).map_err(|e| format!("{:?}", e))) }
-    fn remove(&mut self, k: u64) -> Option<R<Option<u64>>> { Some(self.0.remove(&ckey(self.1, k)).map_err(|e| format!("{:?}", e))) }
-    fn get(&mut self, k: u64) -> Option<Option<u64>> { Some(self.0.get(&ckey(self.1, k)).copied()) }
-    fn get_mut_set(&mut self, k: u64, v: u64) -> Option<Option<u64>> { Some(self.0.get_mut(&ckey(self.1, k)).map(|r| std::mem::replace(r, v))) }
-    fn contains(&mut self, k: u64) -> Option<bool> { Some(self.0.contains_key(&ckey(self.1, k))) }
-    fn len(&mut self) -> Option<usize> {
-        let n = self.0.len();
-        if self.0.is_empty() != (n == 0) { return Some(usize::MAX); }
-        Some(n)
-    }
-    fn iter(&mut self) -> Option<Vec<(u64, u64)>> { Some(self.0.iter_with_strategy(IterationStrategy::Safe).map(|(k, v)| (k.id, *v)).collect()) }
-    fn clear(&mut self) -> Option<()> { self.0.clear(); Some(()) }
-    fn raw(&mut self) -> Option<(Vec<(u64, u64)>, Vec<u64>)> {
-        Some((self.0.iter_with_strategy(IterationStrategy::Safe).map(|(k, v)| (k.id, *v)).collect(),
-              vec![self.0.capacity() as u64, self.0.deleted_count() as u64]))
-    }
-    fn maintain(&mut self, w: u64) -> Option<()> {
-        if w % 2 == 0 { let _ = self.0.reserve((w % 40) as usize); } else { let _ = self.0.revoke_deleted(); }
-        Some(())
-    }
-}
-
-struct Idx(GoldHashIdx<CKey, u64>, u64);
-impl Mut for Idx {
-    fn insert(&mut self, k: u64, v: u64) -> Option<R<Option<u64>>> { Some(self.0.insert(ckey(self.1, k), v).map_err(|e| format!("{:?}", e))) }
-    fn remove(&mut self, k: u64) -> Option<R<Option<u64>>> { Some(Ok(self.0.remove(&ckey(self.1, k)))) }
-    fn get(&mut self, k: u64) -> Option<Option<u64>> { Some(self.0.get(&ckey(self.1, k)).copied()) }
-    fn get_mut_set(&mut self, k: u64, v: u64) -> Option<Option<u64>> { Some(self.0.get_mut(&ckey(self.1, k)).map(|r| std::mem::replace(r, v))) }
-    fn contains(&mut self, k: u64) -> Option<bool> { Some(self.0.contains_key(&ckey(self.1, k))) }
-    fn len(&mut self) -> Option<usize> {
-        let n = self.0.len();
-        if self.0.is_empty() != (n == 0) { return Some(usize::MAX); }
-        Some(n)
-    }
-    fn iter(&mut self) -> Option<Vec<(u64, u64)>> { None }
-    fn clear(&mut self) -> Option<()> { None }
-    fn maintain(&mut self, _w: u64) -> Option<()> { self.0.shrink_to_fit(); Some(()) }
-}
-
-struct Sm(SmallMap<CKey, u64>, u64);
-impl Mut for Sm {
-    fn insert(&mut self, k: u64, v: u64) -> Option<R<Option<u64>>> { Some(self.0.insert(ckey(self.1, k), v).map_err(|e| format!("{:?}", e))) }
-    fn remove(&mut self, k: u64) -> Option<R<Option<u64>>> { Some(Ok(self.0.remove(&ckey(self.1, k)))) }
-    fn get(&mut self, k: u64) -> Option<Option<u64>> { Some(self.0.get(&ckey(self.1, k)).copied()) }
-    fn get_mut_set(&mut self, k: u64, v: u64) -> Option<Option<u64>> { Some(self.0.get_mut(&ckey(self.1, k)).map(|r| std::mem::replace(r, v))) }
-    fn contains(&mut self, k: u64) -> Option<bool> { Some(self.0.contains_key(&ckey(self.1, k))) }
-    fn len(&mut self) -> Option<usize> {
-        let n = self.0.len();
-        if self.0.is_empty() != (n == 0) { return Some(usize::MAX); }
-        Some(n)
-    }
-    fn iter(&mut self) -> Option<Vec<(u64, u64)>> { Some(self.0.iter().map(|(k, v)| (k.id, *v)).collect()) }
-    fn clear(&mut self) -> Option<()> { self.0.clear(); Some(()) }
-}
-
-/// SmallMap<u8, V>: the specialised lookup `get_fast` (vectorised key search) stands in for get
-struct SmU8(SmallMap<u8, u64>);
-impl Mut for SmU8 {
-    fn insert(&mut self, k: u64, v: u64) -> Option<R<Option<u64>>> { Some(self.0.insert(k as u8, v).map_err(|e| format!("{:?}", e))) }
-    fn remove(&mut self, k: u64) -> Option<R<Option<u64>>> { Some(Ok(self.0.remove(&(k as u8)))) }
-    fn get(&mut self, k: u64) -> Option<Option<u64>> { Some(self.0.get_fast(&(k as u8)).copied()) }
-    fn get_mut_set(&mut self, k: u64, v: u64) -> Option<Option<u64>> { Some(self.0.get_mut(&(k as u8)).map(|r| std::mem::replace(r, v))) }
-    fn contains(&mut self, k: u64) -> Option<bool> { Some(self.0.contains_key(&(k as u8))) }
-    fn len(&mut self) -> Option<usize> { Some(self.0.len()) }
-    fn iter(&mut self) -> Option<Vec<(u64, u64)>> { Some(self.0.iter().map(|(k, v)| (*k as u64, *v)).collect()) }
-    fn clear(&mut self) -> Option<()> { self.0.clear(); Some(()) }
-}
-
-/// EasyHashMap: put has no return value; get_mut is offered as get_or_insert on a present key
-struct Easy(EasyHashMap<CKey, u64>, u64);
-impl Mut for Easy {
-    fn insert(&mut self, k: u64, v: u64) -> Option<R<Option<u64>>> {
-        let old = self.0.get(&ckey(self.1, k)).copied();
-        self.0.put(ckey(self.1, k), v);
-        Some(Ok(old))
-    }
-    fn remove(&mut self, k: u64) -> Option<R<Option<u64>>> { Some(Ok(self.0.remove(&ckey(self.1, k)))) }
-    fn get(&mut self, k: u64) -> Option<Option<u64>> { Some(self.0.get(&ckey(self.1, k)).copied()) }
-    fn get_mut_set(&mut self, k: u64, v: u64) -> Option<Option<u64>> {
-        if !self.0.contains_key(&ckey(self.1, k)) { return Some(None); }
-        match self.0.get_or_insert(ckey(self.1, k), v) {
-            Ok(r) => Some(Some(std::mem::replace(r, v))),
-            Err(_) => Some(None),
-        }
-    }
-    fn contains(&mut self, k: u64) -> Option<bool> { Some(self.0.contains_key(&ckey(self.1, k))) }
-    fn len(&mut self) -> Option<usize> {
-        let n = self.0.len();
-        if self.0.is_empty() != (n == 0) { return Some(usize::MAX); }
-        Some(n)
-    }
-    fn iter(&mut self) -> Option<Vec<(u64, u64)>> { None }
-    fn clear(&mut self) -> Option<()> { self.0.clear(); Some(()) }
-    fn maintain(&mut self, w: u64) -> Option<()> { if w % 2 == 0 { self.0.reserve((w % 40) as usize); } else { self.0.shrink_to_fit(); } Some(()) }
-}
-
-struct StrM(HashStrMap<u64>);
-fn skey(k: u64) -> String { format!("key-{}", k) }
-impl Mut for StrM {
-    fn insert(&mut self, k: u64, v: u64) -> Option<R<Option<u64>>> {
-        Some(if k % 2 == 0 { self.0.insert(&skey(k), v) } else { self.0.insert_string(skey(k), v) }.map_err(|e| format!("{:?}", e)))
-    }
-    fn remove(&mut self, k: u64) -> Option<R<Option<u64>>> { Some(Ok(self.0.remove(&skey(k)))) }
-    fn get(&mut self, k: u64) -> Option<Option<u64>> { Some(self.0.get(&skey(k)).copied()) }
-    fn get_mut_set(&mut self, k: u64, v: u64) -> Option<Option<u64>> { Some(self.0.get_mut(&skey(k)).map(|r| std::mem::replace(r, v))) }
-    fn contains(&mut self, k: u64) -> Option<bool> { Some(self.0.contains_key(&skey(k))) }
-    fn len(&mut self) -> Option<usize> {
-        let n = self.0.len();
-        if self.0.is_empty() != (n == 0) { return Some(usize::MAX); }
-        Some(n)
-    }
-    fn iter(&mut self) -> Option<Vec<(u64, u64)>> {
-        Some(self.0.iter().map(|(k, v)| (k.trim_start_matches("key-").parse::<u64>().unwrap_or(u64::MAX), *v)).collect())
-    }
-    fn clear(&mut self) -> Option<()> { self.0.clear(); Some(()) }
-    fn maintain(&mut self, _w: u64) -> Option<()> { self.0.shrink_to_fit(); Some(()) }
-}
-
-// ---------------------------------------------------------------------------------------------
 // cells
 // ---------------------------------------------------------------------------------------------
 /// (cell family, variant) -> name, status, constructor.  `aux` = hasher mode (zip) or collide mode.
-const ZIP_VARIANTS: u64 = 12;
+const ZIP_VARIANTS: u64 = 23;
+const ZIP_CLASSIC: u64 = 12; // variants 0..12 existed before the widening (every one runs every round)
 fn zip_config(variant: u64) -> (String, ZiporaHashMapConfig, Option<u64>, bool) {
     // returns (name, config, model initial capacity if standard storage, is_stub)
     let std_cfg = |cap: usize| {
@@ -281,12 +79,10 @@ fn zip_config(variant: u64) -> (String, ZiporaHashMapConfig, Option<u64>, bool) 
         c.storage_strategy = StorageStrategy::Standard { initial_capacity: cap, growth_factor: 2.0 };
         c
     };
+    let pool = || SecureMemoryPool::new(SecurePoolConfig::small_secure()).expect("pool");
     match variant {
         0 => ("default".into(), ZiporaHashMapConfig::default(), Some(16), false),
-        1 => {
-            let pool = SecureMemoryPool::new(SecurePoolConfig::small_secure()).expect("pool");
-            ("pool".into(), ZiporaHashMapConfig::concurrent_pool(pool), Some(64), false)
-        }
+        1 => ("pool".into(), ZiporaHashMapConfig::concurrent_pool(pool()), Some(64), false),
         2 => ("cache_optimized".into(), ZiporaHashMapConfig::cache_optimized(), None, true),
         3 => ("string_optimized".into(), ZiporaHashMapConfig::string_optimized(), None, true),
         4 => ("small_inline".into(), ZiporaHashMapConfig::small_inline(4), None, true),
@@ -296,33 +92,105 @@ fn zip_config(variant: u64) -> (String, ZiporaHashMapConfig, Option<u64>, bool) 
         8 => ("standard_cap10".into(), std_cfg(10), Some(10), false),   // not a power of two after clear()
         9 => ("standard_cap24".into(), std_cfg(24), Some(24), false),   // mask 23: probe path skips slots
         10 => ("standard_cap100".into(), std_cfg(100), Some(100), false),
-        _ => {
+        11 => {
             let mut c = std_cfg(16);
             c.hash_strategy = HashStrategy::LinearProbing { max_probe_distance: 8, cache_aligned: false };
             c.optimization_strategy = OptimizationStrategy::Standard;
             ("standard_linear_probing".into(), c, Some(16), false)
         }
+        // --- breadth: every hash strategy / optimisation strategy / load factor / growth factor on the standard storage
+        12 => {
+            let mut c = std_cfg(16);
+            c.hash_strategy = HashStrategy::Chaining { load_factor: 0.5, hash_cache: true, compact_links: true };
+            c.optimization_strategy = OptimizationStrategy::SimdAccelerated { string_ops: true, bulk_ops: true, hash_computation: true };
+            c.load_factor = 0.5;
+            c.storage_strategy = StorageStrategy::Standard { initial_capacity: 16, growth_factor: 1.5 };
+            ("standard_chaining_simd".into(), c, Some(16), false)
+        }
+        13 => {
+            let mut c = std_cfg(16);
+            c.hash_strategy = HashStrategy::Cuckoo { num_hash_functions: 2, max_evictions: 8 };
+            c.optimization_strategy = OptimizationStrategy::CacheAware { prefetch_distance: 0, hot_cold_separation: true, access_pattern_tracking: true };
+            c.load_factor = 0.99;
+            c.initial_capacity = 1000; // the storage strategy's own initial_capacity (16) decides
+            ("standard_cuckoo_cacheaware".into(), c, Some(16), false)
+        }
+        14 => {
+            let mut c = std_cfg(64);
+            c.hash_strategy = HashStrategy::Hopscotch { neighborhood_size: 4, displacement_threshold: 2 };
+            c.optimization_strategy = OptimizationStrategy::HighPerformance { simd_enabled: false, cache_optimized: false, prefetch_enabled: false, numa_aware: false };
+            c.load_factor = 0.1;
+            c.storage_strategy = StorageStrategy::Standard { initial_capacity: 64, growth_factor: 4.0 };
+            ("standard_hopscotch_plain".into(), c, Some(64), false)
+        }
+        15 => {
+            let mut c = std_cfg(16);
+            c.hash_strategy = HashStrategy::RobinHood { max_probe_distance: 1, variance_reduction: false, backward_shift: false };
+            c.load_factor = 1.0;
+            ("standard_robinhood_probe1".into(), c, Some(16), false)
+        }
+        16 => {
+            let mut c = ZiporaHashMapConfig::concurrent_pool(pool());
+            c.initial_capacity = 7;
+            if let StorageStrategy::PoolAllocated { chunk_size, .. } = &mut c.storage_strategy { *chunk_size = 1; }
+            ("pool_cap7_chunk1".into(), c, Some(7), false)
+        }
+        17 => {
+            let mut c = ZiporaHashMapConfig::concurrent_pool(pool());
+            c.initial_capacity = 0;
+            ("pool_cap0".into(), c, Some(0), false)
+        }
+        // --- breadth: the stub presets with other parameters (still stubs)
+        18 => ("small_inline16".into(), ZiporaHashMapConfig::small_inline(16), None, true),
+        19 => ("small_inline0".into(), ZiporaHashMapConfig::small_inline(0), None, true),
+        20 => ("small_inline70000".into(), ZiporaHashMapConfig::small_inline(70000), None, true), // max_probe_distance: 70000 as u16
+        21 => {
+            let mut c = ZiporaHashMapConfig::cache_optimized();
+            c.initial_capacity = 0;
+            ("cache_optimized_cap0".into(), c, None, true)
+        }
+        _ => {
+            let mut c = ZiporaHashMapConfig::string_optimized();
+            c.storage_strategy = StorageStrategy::StringOptimized { arena_size: 0, prefix_cache: false, interning: false };
+            ("string_optimized_arena0".into(), c, None, true)
+        }
     }
 }
 
-const GOLD_VARIANTS: u64 = 9;
-fn gold_config(variant: u64) -> (String, GoldHashMapConfig, bool) {
+const GOLD_VARIANTS: u64 = 16;
+const GOLD_CLASSIC: u64 = 9;
+/// (name, config, u64 links, constructor: 0 with_config, 1 new(), 2 Default::default())
+fn gold_config(variant: u64) -> (String, GoldHashMapConfig, bool, u64) {
     let custom = |cap: usize, lf: f32, cache: bool, gc: bool, reuse: bool| GoldHashMapConfig {
         initial_capacity: cap, load_factor: lf, enable_hash_cache: cache, enable_auto_gc: gc,
         enable_freelist_reuse: reuse, default_iteration_strategy: IterationStrategy::Safe,
     };
     match variant {
-        0 => ("default".into(), GoldHashMapConfig::default(), false),
-        1 => ("small".into(), GoldHashMapConfig::small(), false),
-        2 => ("large".into(), GoldHashMapConfig::large(), false),
-        3 => ("high_churn".into(), GoldHashMapConfig::high_churn(), false),
-        4 => ("cap1_lf0.5_cache_gc".into(), custom(1, 0.5, true, true, true), false),
-        5 => ("cap5_lf0.9_noreuse".into(), custom(5, 0.9, false, false, false), false),
-        6 => ("cap5_lf0.1_cache_noreuse_gc".into(), custom(5, 0.1, true, true, false), false),
-        7 => ("default_u64link".into(), GoldHashMapConfig::default(), true),
-        _ => ("high_churn_cache_u64link".into(), { let mut c = GoldHashMapConfig::high_churn(); c.enable_hash_cache = true; c }, true),
+        0 => ("default".into(), GoldHashMapConfig::default(), false, 0),
+        1 => ("small".into(), GoldHashMapConfig::small(), false, 0),
+        2 => ("large".into(), GoldHashMapConfig::large(), false, 0),
+        3 => ("high_churn".into(), GoldHashMapConfig::high_churn(), false, 0),
+        4 => ("cap1_lf0.5_cache_gc".into(), custom(1, 0.5, true, true, true), false, 0),
+        5 => ("cap5_lf0.9_noreuse".into(), custom(5, 0.9, false, false, false), false, 0),
+        6 => ("cap5_lf0.1_cache_noreuse_gc".into(), custom(5, 0.1, true, true, false), false, 0),
+        7 => ("default_u64link".into(), GoldHashMapConfig::default(), true, 0),
+        8 => ("high_churn_cache_u64link".into(), { let mut c = GoldHashMapConfig::high_churn(); c.enable_hash_cache = true; c }, true, 0),
+        // --- breadth: the other constructors, load factors at and beyond the ends of the valid range, Fast as default iteration
+        9 => ("new".into(), GoldHashMapConfig::default(), false, 1),
+        10 => ("default_trait_u64link".into(), GoldHashMapConfig::default(), true, 2),
+        11 => ("cap5_lf0.999_cache".into(), custom(5, 0.999, true, false, true), false, 0),
+        12 => ("cap0_lf0.01_gc".into(), custom(0, 0.01, false, true, true), false, 0),
+        13 => ("cap0_lfNaN_cache_gc".into(), custom(0, f32::NAN, true, true, true), false, 0),       // invalid load factor -> 0.7
+        14 => ("cap2000_lf1.0_noreuse_gc".into(), custom(2000, 1.0, false, true, false), false, 0),  // invalid load factor -> 0.7
+        _ => ("fast_default_iteration_cache".into(), { let mut c = custom(16, 0.7, true, false, true); c.default_iteration_strategy = IterationStrategy::Fast; c }, false, 0),
     }
 }
+
+const IDX_VARIANTS: u64 = 8;
+const IDX_CLASSIC: u64 = 3;
+const EASY_VARIANTS: u64 = 10;
+const EASY_CLASSIC: u64 = 5;
+const TYPES: u64 = 7; // typed cells: u8, i64/i32, String/String, (), u64/(), (u32,u32)/u128, u64/[u64;130]
 
 #[derive(Clone)]
 enum ModelDesc {
@@ -346,47 +214,115 @@ fn make_cell(family: &str, variant: u64, aux: u64) -> Cell {
     match family {
         "zip" => {
             let (name, cfg, cap, stub) = zip_config(variant);
-            let m = ZiporaHashMap::<u64, u64, ModeBuild>::with_config_and_hasher(cfg, ModeBuild(aux)).expect("with_config_and_hasher");
-            let model = if stub { Some(ModelDesc::Stub) } else { cap.map(|c| ModelDesc::Std { mode: aux, cap: c }) };
-            Cell { name: format!("ZiporaHashMap/{}", name), status: if stub { "finding" } else { "M+S" }, model, stub, map: Box::new(Zip(m)) }
+            let m = zipora::hash_map::ZiporaHashMap::<u64, u64, ModeBuild>::with_config_and_hasher(cfg, ModeBuild(aux)).expect("with_config_and_hasher");
+            // the library's own hash functions (modes >= N_HASHERS) have no mirror in Model.v
+            let model = if stub { Some(ModelDesc::Stub) } else if aux < N_HASHERS { cap.map(|c| ModelDesc::Std { mode: aux, cap: c }) } else { None };
+            Cell { name: format!("ZiporaHashMap/{}", name), status: if stub { "finding" } else { "M+S" }, model, stub, map: Box::new(Zip::<U64, ModeBuild>(m, aux)) }
         }
         "zipstr" => {
             let (name, cfg, _, stub) = zip_config(variant);
-            let m = ZiporaHashMap::<String, u64, ModeBuild>::with_config_and_hasher(cfg, ModeBuild(aux)).expect("with_config_and_hasher");
+            let m = zipora::hash_map::ZiporaHashMap::<String, u64, ModeBuild>::with_config_and_hasher(cfg, ModeBuild(aux)).expect("with_config_and_hasher");
             Cell { name: format!("ZiporaHashMap<String>/{}", name), status: if stub { "finding" } else { "S-only" }, model: None, stub, map: Box::new(ZipStr(m)) }
         }
         "zipcap" => {
             // ZiporaHashMap::with_capacity(n) needs S: Default, i.e. hasher mode 0
             let n = variant as usize;
-            let m = ZiporaHashMap::<u64, u64, ModeBuild>::with_capacity(n).expect("with_capacity");
-            Cell { name: "ZiporaHashMap/with_capacity".into(), status: "M+S", model: Some(ModelDesc::Std { mode: 0, cap: n.max(16) as u64 }), stub: false, map: Box::new(Zip(m)) }
+            let m = zipora::hash_map::ZiporaHashMap::<u64, u64, ModeBuild>::with_capacity(n).expect("with_capacity");
+            Cell { name: "ZiporaHashMap/with_capacity".into(), status: "M+S", model: Some(ModelDesc::Std { mode: 0, cap: n.max(16) as u64 }), stub: false, map: Box::new(Zip::<U64, ModeBuild>(m, 0)) }
+        }
+        "zipctor" => {
+            // the constructors that take the hasher from S::default() (mode 0): new(), with_config(..), Default::default()
+            type M = zipora::hash_map::ZiporaHashMap<u64, u64, ModeBuild>;
+            let (name, m, cap): (&str, M, u64) = match variant {
+                0 => ("new", M::new().expect("new"), 16),
+                1 => ("with_config_default", M::with_config(ZiporaHashMapConfig::default()).expect("with_config"), 16),
+                2 => ("default_trait", M::default(), 16),
+                _ => ("with_config_pool", M::with_config(ZiporaHashMapConfig::concurrent_pool(SecureMemoryPool::new(SecurePoolConfig::small_secure()).expect("pool"))).expect("with_config"), 64),
+            };
+            Cell { name: format!("ZiporaHashMap/ctor_{}", name), status: "M+S", model: Some(ModelDesc::Std { mode: 0, cap }), stub: false, map: Box::new(Zip::<U64, ModeBuild>(m, 0)) }
+        }
+        "zipdef" => {
+            // the default hasher parameter (ahash RandomState) and std's RandomState: seeds unknown, oracle only
+            match variant {
+                0 => Cell { name: "ZiporaHashMap<S=default>/new".into(), status: "S-only", model: None, stub: false,
+                            map: Box::new(Zip::<U64, _>(zipora::hash_map::ZiporaHashMap::<u64, u64>::new().expect("new"), 0)) },
+                1 => Cell { name: "ZiporaHashMap<S=default>/with_capacity100".into(), status: "S-only", model: None, stub: false,
+                            map: Box::new(Zip::<U64, _>(zipora::hash_map::ZiporaHashMap::<u64, u64>::with_capacity(100).expect("with_capacity"), 0)) },
+                2 => Cell { name: "ZiporaHashMap<S=default>/default_trait".into(), status: "S-only", model: None, stub: false,
+                            map: Box::new(Zip::<U64, _>(zipora::hash_map::ZiporaHashMap::<u64, u64>::default(), 0)) },
+                _ => Cell { name: "ZiporaHashMap<S=std RandomState>/with_config".into(), status: "S-only", model: None, stub: false,
+                            map: Box::new(Zip::<U64, std::collections::hash_map::RandomState>(
+                                zipora::hash_map::ZiporaHashMap::with_config(ZiporaHashMapConfig::default()).expect("with_config"), 0)) },
+            }
         }
         "gold" => {
-            let (name, cfg, wide) = gold_config(variant);
+            let (name, cfg, wide, ctor) = gold_config(variant);
+            let lf = if cfg.load_factor <= 0.0 || cfg.load_factor >= 1.0 || !cfg.load_factor.is_finite() { 0.7 } else { cfg.load_factor };
+            let fast = cfg.default_iteration_strategy == IterationStrategy::Fast;
             let model = Some(ModelDesc::Gold { cap0: cfg.initial_capacity as u64, cache: cfg.enable_hash_cache, gc: cfg.enable_auto_gc,
-                                               reuse: cfg.enable_freelist_reuse, lf: cfg.load_factor, collide: aux });
-            let map: Box<dyn Mut> = if wide { Box::new(Gold::<u64>(GoldHashMap::with_config(cfg), aux)) } else { Box::new(Gold::<u32>(GoldHashMap::with_config(cfg), aux)) };
+                                               reuse: cfg.enable_freelist_reuse, lf, collide: aux });
+            use zipora::hash_map::GoldHashMap as G;
+            let map: Box<dyn Mut> = match (wide, ctor) {
+                (true, 2) => Box::new(Gold::<CK, u64>(G::default(), aux, fast)),
+                (true, _) => Box::new(Gold::<CK, u64>(G::with_config(cfg), aux, fast)),
+                (false, 1) => Box::new(Gold::<CK, u32>(G::new(), aux, fast)),
+                (false, _) => Box::new(Gold::<CK, u32>(G::with_config(cfg), aux, fast)),
+            };
             Cell { name: format!("GoldHashMap/{}", name), status: "M+S", model, stub: false, map }
         }
         "idx" => {
-            let m = match variant { 0 => GoldHashIdx::new(), 1 => GoldHashIdx::with_capacity(1),
-                _ => GoldHashIdx::with_pool(16, SecureMemoryPool::new(SecurePoolConfig::small_secure()).expect("pool")) };
-            Cell { name: format!("GoldHashIdx/{}", ["new", "with_capacity1", "with_pool"][variant.min(2) as usize]), status: "M+S", model: Some(ModelDesc::Idx { cap: [16u64, 1, 16][variant.min(2) as usize] }), stub: false, map: Box::new(Idx(m, aux)) }
-        }
-        "small_u8" => Cell { name: "SmallMap<u8>/get_fast".into(), status: "S-only", model: None, stub: false, map: Box::new(SmU8(SmallMap::new())) },
-        "small" => Cell { name: "SmallMap".into(), status: "M+S", model: Some(ModelDesc::Small), stub: false, map: Box::new(Sm(SmallMap::new(), aux)) },
-        "easy" => {
-            let (m, desc) = match variant {
-                0 => (EasyHashMap::new(), ModelDesc::Easy { cap: 16, auto: true, num: 3, den: 4 }),
-                1 => (EasyHashMap::with_default(7), ModelDesc::Easy { cap: 16, auto: true, num: 3, den: 4 }),
-                2 => (EasyHashMap::initial_capacity(100).build(), ModelDesc::Easy { cap: 100, auto: true, num: 3, den: 4 }),
-                3 => (EasyHashMap::initial_capacity(16).max_load_factor(0.1).build(), ModelDesc::Easy { cap: 16, auto: true, num: 1, den: 10 }),
-                _ => (EasyHashMap::initial_capacity(20).auto_grow(false).build(), ModelDesc::Easy { cap: 20, auto: false, num: 3, den: 4 }),
+            use zipora::containers::specialized::GoldHashIdx as I;
+            let pool = |c: SecurePoolConfig| SecureMemoryPool::new(c).expect("pool");
+            // every map comes with a twin on the same memory pool (see Idx): the same Arc for with_pool, the global pool otherwise
+            let (p2, p7) = (pool(SecurePoolConfig::small_secure()), pool(SecurePoolConfig::medium_secure()));
+            let mk = |twin: bool| -> (&'static str, I<CKey, u64>, u64) {
+                let _ = twin;
+                match variant {
+                    0 => ("new", I::new(), 16),
+                    1 => ("with_capacity1", I::with_capacity(1), 1),
+                    2 => ("with_pool", I::with_pool(16, p2.clone()), 16),
+                    3 => ("default_trait", I::default(), 16),
+                    4 => ("with_capacity0", I::with_capacity(0), 0),
+                    5 => ("with_capacity17", I::with_capacity(17), 17),
+                    6 => ("with_capacity1000", I::with_capacity(1000), 1000),
+                    _ => ("with_pool0_medium", I::with_pool(0, p7.clone()), 0),
+                }
             };
-            Cell { name: format!("EasyHashMap/{}", ["new", "with_default", "cap100", "cap16_lf0.1", "cap20_nogrow"][variant.min(4) as usize]), status: "M+S", model: Some(desc), stub: false, map: Box::new(Easy(m, aux)) }
+            let (name, m, cap) = mk(false);
+            let (_, twin, _) = mk(true);
+            Cell { name: format!("GoldHashIdx/{}", name), status: "M+S", model: Some(ModelDesc::Idx { cap }), stub: false, map: Box::new(Idx::<CK>(m, aux, Some(twin))) }
+        }
+        "small_u8" => Cell { name: "SmallMap<u8>/get_fast".into(), status: "S-only", model: None, stub: false, map: Box::new(SmU8(zipora::containers::specialized::SmallMap::new())) },
+        "small" => {
+            use zipora::containers::specialized::SmallMap as S;
+            let m = if variant == 0 { S::new() } else { S::default() };
+            Cell { name: "SmallMap".into(), status: "M+S", model: Some(ModelDesc::Small), stub: false, map: Box::new(Sm::<CK>(m, aux)) }
+        }
+        "easy" => {
+            use zipora::containers::specialized::{EasyHashMap as E, EasyHashMapBuilder as B};
+            let e = |cap: u64, auto: bool, num: u64, den: u64| ModelDesc::Easy { cap, auto, num, den };
+            let (name, m, desc, dflt): (&str, E<CKey, u64>, ModelDesc, Option<u64>) = match variant {
+                0 => ("new", E::new(), e(16, true, 3, 4), None),
+                1 => ("with_default", E::with_default(7), e(16, true, 3, 4), Some(7)),
+                2 => ("cap100", E::initial_capacity(100).build(), e(100, true, 3, 4), None),
+                3 => ("cap16_lf0.1", E::initial_capacity(16).max_load_factor(0.1).build(), e(16, true, 1, 10), None),
+                4 => ("cap20_nogrow", E::initial_capacity(20).auto_grow(false).build(), e(20, false, 3, 4), None),
+                // --- breadth: the other builder entry points, clamped load factors, Default
+                5 => ("builder_new", B::new().build(), e(16, true, 3, 4), None),
+                6 => ("with_default_value_cap40_lf0.95", E::with_default_value(9).with_capacity(40).max_load_factor(0.95).build(), e(40, true, 19, 20), Some(9)),
+                7 => ("default_trait", E::default(), e(16, true, 3, 4), None),
+                8 => ("builder_default_lf2.0", B::default().with_default(3).auto_grow(true).max_load_factor(2.0).build(), e(16, true, 19, 20), Some(3)),
+                _ => ("cap5_lf0.0_nogrow", B::new().with_capacity(5).max_load_factor(0.0).auto_grow(false).build(), e(16, false, 1, 10), None),
+            };
+            Cell { name: format!("EasyHashMap/{}", name), status: "M+S", model: Some(desc), stub: false, map: Box::new(Easy::<CK>(m, aux, dflt, variant == 0 || variant == 7)) }
+        }
+        "zip_t" | "gold_t" | "idx_t" | "small_t" | "easy_t" => {
+            let (name, map) = typed_cell(family, variant, aux);
+            Cell { name, status: "S-only", model: None, stub: false, map }
         }
         _ => {
-            let m = if variant == 0 { HashStrMap::new() } else { HashStrMap::with_capacity(3) };
+            use zipora::containers::specialized::HashStrMap as H;
+            let m = match variant { 0 => H::new(), 1 => H::with_capacity(3), _ => H::default() };
             Cell { name: "HashStrMap".into(), status: "S-only", model: None, stub: false, map: Box::new(StrM(m)) }
         }
     }
@@ -399,10 +335,26 @@ struct Ctx { sum: Summary, shards: CoqShards, budget: usize, strict: bool }
 
 fn coq_on(x: Option<u64>) -> String { match x { Some(v) => format!("ORes (Some {})", v), None => "ORes None".into() } }
 
+/// the items of a bulk insertion (op 10): 2..6 keys from k on with stride 1 / 16 / 3, the first key once more at the end
+/// (a duplicate inside the batch: the later value wins)
+fn bulk_items(k: u64, v: u64) -> Vec<(u64, u64)> {
+    let cnt = 2 + v % 5;
+    let stride = [1u64, 16, 3][(v / 5 % 3) as usize];
+    let mut items: Vec<(u64, u64)> = (0..cnt).map(|i| (k.wrapping_add(i * stride), v.wrapping_add(i))).collect();
+    items.push((k, v.wrapping_add(cnt)));
+    items
+}
+
 /// Runs `ops` on a fresh map of the cell and compares every answer with a BTreeMap.
-fn history(cx: &mut Ctx, family: &str, variant: u64, aux: u64, ops: &[(u64, u64, u64)], coq: bool) {
-    let cj = json!({"cell": family, "variant": variant, "aux": aux,
-                    "ops": ops.iter().map(|(c, k, v)| json!([c, k, v])).collect::<Vec<_>>()});
+/// `big` = Some(descriptor) when the ops were generated from (kind, n, seed): the case JSON then carries the descriptor.
+fn history(cx: &mut Ctx, family: &str, variant: u64, aux: u64, ops: &[(u64, u64, u64)], coq: bool, big: Option<&Value>) {
+    // histories of up to 1500 operations are spelled out in the case (the shrinker works on the list), longer ones are
+    // carried by their descriptor
+    let cj = match big {
+        Some(d) if ops.len() > 1500 => json!({"cell": family, "variant": variant, "aux": aux, "big": d}),
+        _ => json!({"cell": family, "variant": variant, "aux": aux,
+                       "ops": ops.iter().map(|(c, k, v)| json!([c, k, v])).collect::<Vec<_>>()}),
+    };
     let made = guarded(|| make_cell(family, variant, aux));
     let mut cell = match made {
         Ok(c) => c,
@@ -410,8 +362,11 @@ fn history(cx: &mut Ctx, family: &str, variant: u64, aux: u64, ops: &[(u64, u64,
     };
     let name = cell.name.clone();
     let distinct_keys = { let mut ks: Vec<u64> = ops.iter().filter(|o| o.0 == 0).map(|o| o.1).collect(); ks.sort(); ks.dedup(); ks.len() };
-    let has_rm_reinsert = ops.iter().enumerate().any(|(i, o)| o.0 == 1 && ops[i + 1..].iter().any(|p| p.0 == 0 && p.1 == o.1));
-    cx.sum.eval(&name, &format!("{} {} {:?}", name, aux, ops), ops.len() >= 3);
+    let has_rm_reinsert = big.is_none() && ops.iter().enumerate().any(|(i, o)| o.0 == 1 && ops[i + 1..].iter().any(|p| p.0 == 0 && p.1 == o.1));
+    match big {
+        Some(d) => cx.sum.eval(&name, &format!("{} {} {}", name, aux, d), true),
+        None => cx.sum.eval(&name, &format!("{} {} {:?}", name, aux, ops), ops.len() >= 3),
+    }
     cx.sum.cell_status(&name, cell.status);
     cx.sum.dist_max("max_distinct_keys_inserted", distinct_keys as u64);
     cx.sum.dist_max("max_history_len", ops.len() as u64);
@@ -422,9 +377,14 @@ fn history(cx: &mut Ctx, family: &str, variant: u64, aux: u64, ops: &[(u64, u64,
     let mut offered: Vec<bool> = vec![];    // operations the type does not offer are left out of the model comparison
     let mut failure: Option<String> = None;
     let mut stub_like = true;               // every answer so far is what an empty map would say
-    let mut maintained = false;             // a housekeeping operation (shrink_to_fit / reserve / revoke_deleted) was executed
-    for (i, &(c, k, v)) in ops.iter().enumerate() {
+    let mut maintained = false;             // a housekeeping operation (shrink_to_fit / reserve / revoke_deleted / clone ...) was executed
+    let mut model_len: Option<usize> = None; // the model comparison stops before the first executed operation that changes the content and has no model
+    for (i, &(c, k0, v0)) in ops.iter().enumerate() {
         let m = &mut cell.map;
+        // key and value in the canonical form of the cell's element types (u8 keys wrap at 256, () is a single key ...)
+        let (k, v) = if c <= 4 || c == 12 { (m.canon_k(k0), if c == 0 || c == 3 || c == 12 { m.canon_v(v0) } else { v0 }) } else { (k0, v0) };
+        let items: Vec<(u64, u64)> = if c == 10 { bulk_items(k0, v0).into_iter().map(|(a, b)| (m.canon_k(a), m.canon_v(b))).collect() } else { vec![] };
+        let (rm, rr, radd) = (2 + k0 % 3, (k0 / 3) % (2 + k0 % 3), v0 % 2 == 1); // retain: keep the keys with key % rm != rr
         let step: Result<Option<(String, Option<String>)>, String> = guarded(|| {
             // returns (coq observation, oracle complaint)
             match c {
@@ -449,28 +409,59 @@ fn history(cx: &mut Ctx, family: &str, variant: u64, aux: u64, ops: &[(u64, u64,
                 4 => m.contains(k).map(|got| { let want = shadow.contains_key(&k);
                     (format!("OBool {}", coq_bool(got)), if got != want { Some(format!("contains_key({}) = {}, a map says {}", k, got, want)) } else { None }) }),
                 5 => m.len().map(|got| { let want = shadow.len();
-                    (format!("OLen {}", got as u128), if got != want { Some(if got == usize::MAX { "is_empty() disagrees with len()".to_string() } else { format!("len() = {}, a map has {} live keys", got, want) }) } else { None }) }),
+                    (format!("OLen {}", got as u128), if got != want { Some(if got == usize::MAX { "is_empty() disagrees with len()".to_string() } else if got == usize::MAX - 1 { "len() of the twin map on the same pool differs".to_string() } else { format!("len() = {}, a map has {} live keys", got, want) }) } else { None }) }),
                 6 => m.iter().map(|mut got| {
                     got.sort();
                     let want: Vec<(u64, u64)> = shadow.iter().map(|(a, b)| (*a, *b)).collect();
                     let term = format!("OIter [{}]", got.iter().map(|(a, b)| format!("({}, {})", a, b)).collect::<Vec<_>>().join("; "));
                     (term, if got != want { Some(format!("iteration yields {:?}, the live entries are {:?}", &got[..got.len().min(12)], &want[..want.len().min(12)])) } else { None }) }),
                 8 => m.maintain(v).map(|_| ("OMaint".to_string(), None)),
-                _ => m.clear().map(|_| ("OUnit".to_string(), None)),
+                // ---- breadth: secondary entry points, judged by the same shadow; none of them is known to the Coq models
+                9 => {
+                    // Clone (and PartialEq where the type has it); probe = (a live key, its value, an absent key) for the inequality checks
+                    let present = shadow.iter().next().map(|(a, b)| (*a, *b));
+                    let absent = (0..300u64).map(|u| m.canon_k(u)).find(|u| !shadow.contains_key(u));
+                    m.clone_swap(v, present, absent).map(|r| ("OMaint".to_string(), r.err().map(|e| format!("clone: {}", e))))
+                }
+                10 => m.bulk(&items, v).map(|r| ("OMut".to_string(), r.err().map(|e| format!("bulk insertion of {:?} returned Err({})", items, e)))),
+                11 => m.alt_get(&[k0, k0.wrapping_add(1), k0.wrapping_add(16)], v).map(|got| {
+                    let mut complaint = None;
+                    for (key, ans, dflt) in got {
+                        let want = shadow.get(&key).copied().or(dflt);
+                        if ans != want && complaint.is_none() { complaint = Some(format!("alternative lookup #{} of key {} = {:?}, a map holds {:?}", v, key, ans, want)); }
+                    }
+                    ("OAlt".to_string(), complaint) }),
+                12 => m.get_or_insert(k, v, v0 / 2).map(|r| {
+                    let want = shadow.get(&k).copied().unwrap_or(v);
+                    match r {
+                        Ok(got) => ("OMut".to_string(), if got != want { Some(format!("get_or_insert({},{}) = {}, a map yields {}", k, v, got, want)) } else { None }),
+                        Err(e) => ("OMut".to_string(), Some(format!("get_or_insert({},{}) returned Err({})", k, v, e))),
+                    } }),
+                13 => m.retain(rm, rr, radd).map(|_| ("OMut".to_string(), None)),
+                14 => m.alt_iter(v).map(|r| match r {
+                    Err(e) => ("OAlt".to_string(), Some(format!("alternative iteration #{}: {}", v, e))),
+                    Ok(mut got) => {
+                        got.sort();
+                        let want: Vec<(u64, u64)> = shadow.iter().map(|(a, b)| (*a, *b)).collect();
+                        (if got.is_empty() { "OAltEmpty".to_string() } else { "OAlt".to_string() },
+                         if got != want { Some(format!("alternative iteration #{} yields {:?}, the live entries are {:?}", v, &got[..got.len().min(12)], &want[..want.len().min(12)])) } else { None })
+                    } }),
+                _ => m.clear_k(k0).map(|_| ("OUnit".to_string(), None)),
             }
         });
         match step {
-            Err(p) => { failure = Some(format!("op {} {:?} panicked: {}", i, (c, k, v), p)); break; }
+            Err(p) => { failure = Some(format!("op {} {:?} panicked: {}", i, (c, k0, v0), p)); break; }
             Ok(None) => { /* operation not offered by this type: skipped on both sides */
                 obs.push("OUnit".into()); offered.push(false); continue; }
-            Ok(Some((term, _))) if term == "OMaint" => {
-                // housekeeping has no counterpart in the models: left out of the model comparison (like an operation the type
-                // does not offer), and the layout observables of such a history are not compared
-                maintained = true; obs.push("OUnit".into()); offered.push(false); continue; }
             Ok(Some((term, complaint))) => {
-                let empty_answer = matches!(term.as_str(), "ORes None" | "OBool false" | "OLen 0" | "OIter []" | "OUnit");
+                let modelled = !matches!(term.as_str(), "OMaint" | "OMut" | "OAlt" | "OAltEmpty");
+                let empty_answer = matches!(term.as_str(), "ORes None" | "OBool false" | "OLen 0" | "OIter []" | "OUnit" | "OMaint" | "OMut" | "OAltEmpty");
                 if !empty_answer { stub_like = false; }
-                obs.push(term); offered.push(true);
+                if term == "OMaint" { maintained = true; }
+                if term == "OMut" && model_len.is_none() { model_len = Some(obs.len()); }
+                // operations without a counterpart in the models are left out of the model comparison (like an operation the type
+                // does not offer); after housekeeping / clone the layout observables of the history are not compared
+                if modelled { obs.push(term); offered.push(true); } else { obs.push("OUnit".into()); offered.push(false); }
                 if let Some(msg) = complaint { failure = Some(format!("op {}: {}", i, msg)); break; }
             }
         }
@@ -480,6 +471,12 @@ fn history(cx: &mut Ctx, family: &str, variant: u64, aux: u64, ops: &[(u64, u64,
             1 => { shadow.remove(&k); }
             3 => { if let Some(r) = shadow.get_mut(&k) { *r = v; } }
             7 => { shadow.clear(); }
+            10 => { for (a, b) in &items { shadow.insert(*a, *b); } }
+            12 => { shadow.entry(k).or_insert(v); }
+            13 => {
+                let m = &cell.map;
+                shadow.retain(|key, val| { if radd { *val = m.canon_v(val.wrapping_add(1)); } key % rm != rr });
+            }
             _ => {}
         }
     }
@@ -491,12 +488,12 @@ fn history(cx: &mut Ctx, family: &str, variant: u64, aux: u64, ops: &[(u64, u64,
     // model comparison: the prefix of the history that produced observations, plus (for complete
     // histories) internal observables: iteration in the order yielded, capacity, deleted count
     if let Some(desc) = cell.model.clone() {
-        if coq && !obs.is_empty() {
-            let n = obs.len();
+        if coq && !obs.is_empty() && big.is_none() {
+            let n = model_len.unwrap_or(obs.len());
             // layout observables (slot/entry order, capacity, deleted count) are compared in the thorough tier only:
             // a property-preserving change of growth policy or slot order is then reported as model drift
             // (no-failing-input-found) there, and not at all in the quick tier
-            let fin = if failure.is_none() && cx.strict && !maintained { guarded(|| cell.map.raw()).ok().flatten() } else { None };
+            let fin = if failure.is_none() && cx.strict && !maintained && model_len.is_none() { guarded(|| cell.map.raw()).ok().flatten() } else { None };
             let kvs = |v: &[(u64, u64)]| format!("[{}]", v.iter().map(|(a, b)| format!("({}, {})", a, b)).collect::<Vec<_>>().join("; "));
             let (kind, params, tables): (u64, Vec<u64>, Vec<String>) = match desc {
                 ModelDesc::Std { mode, cap } => match &fin {
@@ -516,10 +513,12 @@ fn history(cx: &mut Ctx, family: &str, variant: u64, aux: u64, ops: &[(u64, u64,
                 }
             };
             let ops_coq: Vec<String> = ops[..n].iter().enumerate().filter(|(i, _)| offered[*i]).map(|(_, (c, k, v))| format!("({}, {}, {})", c, k, v)).collect();
-            let obs_coq: Vec<String> = obs.iter().enumerate().filter(|(i, _)| offered[*i]).map(|(_, o)| o.clone()).collect();
-            let term = format!("({}, {}, [{}], [{}], [{}])", kind, coq_n_list(params.iter().map(|&x| x as u128)),
-                               tables.join("; "), ops_coq.join("; "), obs_coq.join("; "));
-            cx.shards.push(term, cj);
+            let obs_coq: Vec<String> = obs[..n].iter().enumerate().filter(|(i, _)| offered[*i]).map(|(_, o)| o.clone()).collect();
+            if !ops_coq.is_empty() {
+                let term = format!("({}, {}, [{}], [{}], [{}])", kind, coq_n_list(params.iter().map(|&x| x as u128)),
+                                   tables.join("; "), ops_coq.join("; "), obs_coq.join("; "));
+                cx.shards.push(term, cj);
+            }
         }
     }
 }
@@ -527,7 +526,8 @@ fn history(cx: &mut Ctx, family: &str, variant: u64, aux: u64, ops: &[(u64, u64,
 // ---------------------------------------------------------------------------------------------
 // generators
 // ---------------------------------------------------------------------------------------------
-fn gen_history(r: &mut Rng, max_len: u64) -> Vec<(u64, u64, u64)> {
+/// `wide` = the history also contains the secondary entry points (ops 9..14)
+fn gen_history(r: &mut Rng, max_len: u64, wide: bool) -> Vec<(u64, u64, u64)> {
     // key universes: tiny (forces re-insertion after delete), small, growth-forcing, marker-adjacent
     let universe: Vec<u64> = match r.below(6) {
         0 => vec![0, 1, 2],
@@ -549,12 +549,18 @@ fn gen_history(r: &mut Rng, max_len: u64) -> Vec<(u64, u64, u64)> {
     for _ in 0..n {
         let k = *r.pick(&universe);
         next_val += 1;
-        let c = match r.below(100) { 0..=34 => 0, 35..=59 => 1, 60..=72 => 2, 73..=79 => 3, 80..=84 => 4, 85..=89 => 5, 90..=94 => 6, 95..=96 => 7, _ => 8 };
+        let c = if wide {
+            match r.below(100) { 0..=27 => 0, 28..=47 => 1, 48..=55 => 2, 56..=60 => 3, 61..=63 => 4, 64..=66 => 5, 67..=69 => 6, 70..=71 => 7,
+                                 72..=79 => 8, 80..=83 => 9, 84..=87 => 10, 88..=90 => 11, 91..=94 => 12, 95..=96 => 13, _ => 14 }
+        } else {
+            match r.below(100) { 0..=34 => 0, 35..=59 => 1, 60..=72 => 2, 73..=79 => 3, 80..=84 => 4, 85..=89 => 5, 90..=94 => 6, 95..=96 => 7, _ => 8 }
+        };
         ops.push((c, k, next_val));
     }
     ops.push((5, 0, 0));
     ops.push((6, 0, 0));
-    for &k in universe.iter().take(48) { ops.push((2, k, 0)); }
+    if wide { ops.push((14, 0, next_val)); ops.push((14, 0, next_val + 1)); }
+    for (i, &k) in universe.iter().take(48).enumerate() { ops.push((if wide && i % 4 == 3 { 11 } else { 2 }, k, i as u64)); }
     ops
 }
 
@@ -572,6 +578,74 @@ fn gen_big(r: &mut Rng) -> Vec<(u64, u64, u64)> {
     ops.push((5, 0, 0));
     ops.push((6, 0, 0));
     for i in 0..n { ops.push((2, i * stride, 0)); }
+    ops
+}
+
+/// Histories described by (kind, n, seed) instead of being spelled out in the case JSON.
+///  "tour":   every kind of operation around a fill of n keys (stride by seed): all housekeeping calls, clone, bulk,
+///            get_or_insert, retain, alternative lookups / iteration, clear and reuse of the cleared object
+///  "sweep":  fill exactly n keys (n sits on an internal threshold), housekeeping, remove more than half, housekeeping
+///            (shrink paths), clone, bulk, re-insert, read everything back
+///  "huge":   n sequential inserts (n > 2^16), every third key removed, every sixth re-inserted, housekeeping in between,
+///            full read-back; len / iteration only at the end
+fn expand_big(d: &Value) -> Vec<(u64, u64, u64)> {
+    let kind = d["kind"].as_str().unwrap_or("tour");
+    let n = d["n"].as_u64().unwrap_or(20);
+    let seed = d["seed"].as_u64().unwrap_or(0);
+    let mut r = Rng::new(seed ^ 0xC06);
+    let stride = [1u64, 16, 7, 3][(seed % 4) as usize];
+    let key = |i: u64| i.wrapping_mul(stride);
+    let mut ops: Vec<(u64, u64, u64)> = vec![];
+    match kind {
+        "tour" => {
+            for i in 0..n { ops.push((0, key(i), 1000 + i)); }
+            for w in 0..8 { ops.push((8, 0, w + 7 * seed)); }
+            ops.push((14, 0, seed)); ops.push((9, 0, seed)); ops.push((5, 0, 0));
+            for i in 0..n { if i % 3 == 0 { ops.push((1, key(i), 0)); } }
+            for w in 8..16 { ops.push((8, 0, w + 7 * seed)); }
+            ops.push((9, 0, seed + 1)); ops.push((14, 0, seed + 1)); ops.push((6, 0, 0));
+            ops.push((10, key(1), 30 + seed)); ops.push((10, key(n), 41 + seed)); ops.push((12, key(0), 77)); ops.push((12, key(1), 78)); ops.push((12, key(n + 3), 79));
+            ops.push((3, key(2), 555)); ops.push((11, key(0), seed)); ops.push((11, key(n), seed + 1));
+            ops.push((13, seed % 9, seed + 1)); ops.push((5, 0, 0)); ops.push((14, 0, seed + 2)); ops.push((9, 0, seed + 2));
+            for i in 0..n { if i % 2 == 0 { ops.push((0, key(i), 2000 + i)); } }
+            ops.push((13, (seed + 4) % 9, seed)); ops.push((6, 0, 0));
+            for i in 0..n + 4 { ops.push((2, key(i), 0)); }
+            // clear, housekeeping on the empty object, reuse
+            ops.push((7, seed, 0)); ops.push((5, 0, 0)); ops.push((14, 0, seed));
+            for w in 0..8 { ops.push((8, 0, w)); }
+            ops.push((9, 0, seed)); ops.push((10, key(2), 12 + seed)); ops.push((12, key(2), 5));
+            for i in 0..n / 2 { ops.push((0, key(i), 3000 + i)); }
+            ops.push((1, key(1), 0)); ops.push((9, 0, seed + 1)); ops.push((5, 0, 0)); ops.push((6, 0, 0)); ops.push((14, 0, seed + 3));
+            for i in 0..n + 4 { ops.push((if i % 5 == 4 { 11 } else { 2 }, key(i), i)); }
+        }
+        "sweep" => {
+            for i in 0..n { ops.push((0, key(i), 1000 + i)); }
+            ops.push((5, 0, 0));
+            for w in 0..8 { ops.push((8, 0, w + seed)); }
+            ops.push((0, key(n), 9)); ops.push((1, key(n), 0)); // one past the threshold and back
+            let keep = r.range(2, 5);
+            for i in 0..n { if i % keep != 0 { ops.push((1, key(i), 0)); } }
+            ops.push((5, 0, 0));
+            for w in 8..16 { ops.push((8, 0, w + seed)); }
+            ops.push((9, 0, seed)); ops.push((14, 0, seed));
+            ops.push((10, key(n / 2), 33 + seed)); ops.push((12, key(n / 3), 44));
+            for i in 0..n { if i % 4 == 1 { ops.push((0, key(i), 5000 + i)); } }
+            for w in 16..20 { ops.push((8, 0, w + seed)); }
+            ops.push((5, 0, 0)); ops.push((6, 0, 0)); ops.push((14, 0, seed + 1));
+            for i in 0..n + 2 { ops.push((if i % 64 == 63 { 11 } else { 2 }, key(i), i)); }
+        }
+        _ => {
+            for i in 0..n { ops.push((0, i, i ^ 0x5555)); if i % 16384 == 16383 { ops.push((8, 0, i / 16384)); } }
+            ops.push((5, 0, 0));
+            for i in 0..n { if i % 3 == 0 { ops.push((1, i, 0)); } }
+            for w in 0..6 { ops.push((8, 0, w + seed)); }
+            ops.push((9, 0, 0));
+            for i in 0..n { if i % 6 == 0 { ops.push((0, i, i + 1)); } }
+            ops.push((10, n - 2, 33)); ops.push((12, n + 100, 1));
+            ops.push((5, 0, 0)); ops.push((6, 0, 0)); ops.push((14, 0, 1));
+            for i in 0..n + 8 { ops.push((if i % 1024 == 1023 { 11 } else { 2 }, i, i)); }
+        }
+    }
     ops
 }
 
@@ -598,17 +672,51 @@ fn parse_ops(c: &Value) -> Vec<(u64, u64, u64)> {
 }
 fn run_one(cx: &mut Ctx, c: &Value) {
     let fam = c["cell"].as_str().unwrap_or("zip").to_string();
-    history(cx, &fam, c["variant"].as_u64().unwrap_or(0), c["aux"].as_u64().unwrap_or(0), &parse_ops(c), true);
+    let (variant, aux) = (c["variant"].as_u64().unwrap_or(0), c["aux"].as_u64().unwrap_or(0));
+    if c.get("big").map(|b| b.is_object()).unwrap_or(false) {
+        let d = c["big"].clone();
+        history(cx, &fam, variant, aux, &expand_big(&d), false, Some(&d));
+    } else {
+        history(cx, &fam, variant, aux, &parse_ops(c), true, None);
+    }
+}
+fn described(cx: &mut Ctx, family: &str, variant: u64, aux: u64, kind: &str, n: u64, seed: u64) {
+    let t0 = std::time::Instant::now();
+    let d = json!({"kind": kind, "n": n, "seed": seed});
+    history(cx, family, variant, aux, &expand_big(&d), false, Some(&d));
+    if std::env::var("ZV_TRACE").is_ok() { eprintln!("described {} {} {} {} {} {} {:?}", family, variant, aux, kind, n, seed, t0.elapsed()); }
+    cx.sum.dist(&format!("described_{}_histories", kind));
+}
+
+/// every (family, variant) of the check, with an `aux` for it (hasher mode / collision mode) derived from `salt`
+fn all_cells(salt: u64) -> Vec<(&'static str, u64, u64)> {
+    let mut v: Vec<(&'static str, u64, u64)> = vec![];
+    for x in 0..ZIP_VARIANTS { v.push(("zip", x, (salt + x) % (N_HASHERS + N_LIB_HASHERS))); }
+    for x in [0u64, 1, 3, 9, 12, 16] { v.push(("zipstr", x, (salt + x) % N_HASHERS)); }
+    for x in [0u64, 17, 100, 4096] { v.push(("zipcap", x, 0)); }
+    for x in 0..4 { v.push(("zipctor", x, 0)); }
+    for x in 0..4 { v.push(("zipdef", x, 0)); }
+    for x in 0..GOLD_VARIANTS { v.push(("gold", x, (salt + x) % 4)); }
+    for x in 0..IDX_VARIANTS { v.push(("idx", x, (salt + x) % 4)); }
+    for x in 0..2 { v.push(("small", x, (salt + x) % 4)); }
+    v.push(("small_u8", 0, 0));
+    for x in 0..EASY_VARIANTS { v.push(("easy", x, (salt + x) % 4)); }
+    for x in 0..3 { v.push(("str", x, 0)); }
+    for t in 0..TYPES {
+        for f in ["zip_t", "gold_t", "idx_t", "small_t", "easy_t"] { v.push((f, t, (salt + t) % N_HASHERS)); }
+    }
+    v
 }
 
 pub fn run(args: &Args) {
     let mut cx = Ctx {
-        sum: Summary::new("C06", "operation histories (insert/remove/get/get_mut/contains_key/len/iter/clear, 3..100 ops plus a full read-back) over key universes of 3, 8, 40, 130 keys, marker-adjacent keys and one-home-slot keys, on every map type and preset; ZiporaHashMap under ten caller-supplied hashers (mixing, identity, constant 0, constant u64::MAX, mod 4, two keys on the markers, k<<60, MAX-(k mod 3), 16*(k mod 3), mod 2), the other maps with collisions forced through the key's Hash impl; enumerated: every history of <= 5 (quick: 4/5) insert/remove/get steps over 3 colliding keys; each answer compared with a BTreeMap, iteration as a sorted list; non-trivial = history of >= 3 operations"),
+        sum: Summary::new("C06", "operation histories (insert/remove/get/get_mut/contains_key/len/iter/clear, 3..100 ops plus a full read-back; the wide ones also housekeeping, Clone/PartialEq, bulk insertion, alternative lookups and iteration, get_or_insert, retain) over key universes of 3, 8, 40, 130 keys, marker-adjacent keys and one-home-slot keys, on every map type, constructor and preset; ZiporaHashMap under ten caller-supplied hashers (mixing, identity, constant 0, constant u64::MAX, mod 4, two keys on the markers, k<<60, MAX-(k mod 3), 16*(k mod 3), mod 2) and fourteen hash functions of hash_functions.rs, the other maps with collisions forced through the key's Hash impl; seven rarely used key/value type pairs; enumerated: every history of <= 5 (quick: 4/5) insert/remove/get steps over 3 colliding keys; described histories (tour / threshold sweep / fill past 2^16); each answer compared with a BTreeMap, iteration as a sorted list; non-trivial = history of >= 3 operations"),
         shards: CoqShards::new(HEADER, 150),
         budget: if args.thorough { 9000 } else { 1200 },
         strict: args.thorough,
     };
     let mut rng = Rng::new(args.seed);
+    if std::env::var("ZV_TRACE").is_ok() { let _ = std::panic::take_hook(); } // debugging aid: panic messages on stderr
     if let Some(f) = &args.replay {
         let v: Value = serde_json::from_str(&std::fs::read_to_string(f).expect("replay file")).expect("json");
         let c = if v.get("case").is_some() { v["case"].clone() } else { v };
@@ -643,14 +751,14 @@ pub fn run(args: &Args) {
         let long = ops.len() > depth + 5; // depth+1 histories only for the standard storage
         let coq = n % stride == 0;
         // constant-home-slot hasher (mode 8 maps 1,17,33 to 16,32,0 -> all slot 0 under mask 15) and mod 2
-        history(&mut cx, "zip", 0, 8, ops, coq);
+        history(&mut cx, "zip", 0, 8, ops, coq, None);
         count += 1;
         if long { continue; }
-        history(&mut cx, "zip", 0, 9, ops, coq);
-        history(&mut cx, "gold", 0, 2, ops, coq && n % (2 * stride) == 0);
-        history(&mut cx, "gold", 3, 2, ops, false);
-        history(&mut cx, "idx", 0, 2, ops, coq && n % (2 * stride) == stride);
-        history(&mut cx, "small", 0, 2, ops, false);
+        history(&mut cx, "zip", 0, 9, ops, coq, None);
+        history(&mut cx, "gold", 0, 2, ops, coq && n % (2 * stride) == 0, None);
+        history(&mut cx, "gold", 3, 2, ops, false, None);
+        history(&mut cx, "idx", 0, 2, ops, coq && n % (2 * stride) == stride, None);
+        history(&mut cx, "small", 0, 2, ops, false, None);
     }
     // SmallMap<u8>::get_fast: every fill level 0..=9 of the inline array, lookups of absent keys (0 and 255 included)
     for fill in 0..=9u64 {
@@ -658,51 +766,113 @@ pub fn run(args: &Args) {
             let mut ops: Vec<(u64, u64, u64)> = (0..fill).map(|i| (0, (base + i) % 256, 100 + i)).collect();
             for probe in [0u64, 255, 7, base, (base + fill) % 256, (base + 20) % 256] { ops.push((2, probe, 0)); }
             ops.push((5, 0, 0));
-            history(&mut cx, "small_u8", 0, 0, &ops, false);
+            history(&mut cx, "small_u8", 0, 0, &ops, false, None);
             if fill > 0 {
                 let mut ops2 = ops.clone();
                 ops2.push((1, base % 256, 0));
                 for probe in [0u64, 255, base, (base + 1) % 256] { ops2.push((2, probe, 0)); }
-                history(&mut cx, "small_u8", 0, 0, &ops2, false);
+                history(&mut cx, "small_u8", 0, 0, &ops2, false, None);
             }
         }
     }
     cx.sum.dist_max("enumerated_histories", count);
+
+    // ---- breadth, deterministic families --------------------------------------------------------------------------
+    // (a) the tour: every kind of operation on every constructor / preset / element type, three key layouts
+    for (si, n) in [(0u64, 20u64), (1, 12), (2, 41), (3, 9)] {
+        if !args.thorough && si == 3 { continue; }
+        for (fam, variant, aux) in all_cells(args.seed + si) { described(&mut cx, fam, variant, aux, "tour", n, si); }
+    }
+    // (b) threshold sweeps: fills that end exactly at / one before / one after the internal switch points
+    //     (SmallMap 8; tables of 16/32/64 slots; load factors 0.7 / 0.75 of 16, 64, 97, 1024, 1741; 255/256; 1023..1025; 4095..4097)
+    let sweep_ns: &[u64] = if args.thorough { &[7, 8, 9, 11, 12, 13, 15, 16, 17, 31, 32, 33, 47, 48, 49, 63, 64, 65, 67, 68, 96, 97, 255, 256, 257, 716, 717, 768, 769, 1023, 1024, 1025, 1218, 1219, 4095, 4096, 4097] }
+                           else { &[8, 9, 12, 16, 17, 32, 33, 48, 64, 65, 256, 257, 717, 769, 1024, 1025, 1218, 1219, 4096, 4097] };
+    for (j, &n) in sweep_ns.iter().enumerate() {
+        let seed = args.seed + j as u64;
+        // forced collisions (4 hash values for all keys) make a fill quadratic: only for the small sweeps
+        let cm = if n > 300 { 0 } else { seed % 2 };
+        let cells: Vec<(&str, u64, u64)> = vec![
+            ("zip", 0, seed % 2), ("zip", 1, 0), ("zip", 9, 1), ("zip", 16, 0), ("zipcap", n, 0), ("zipcap", n + 1, 0), ("zipdef", j as u64 % 4, 0),
+            // the capacities the library's own sizing helpers recommend for n elements
+            ("zipcap", zipora::hash_map::optimal_bucket_count(n as usize) as u64, 0), ("zipcap", zipora::hash_map::golden_ratio_next_size(n as usize) as u64, 0),
+            ("gold", j as u64 % GOLD_VARIANTS, cm), ("gold", 1, 0), ("gold", 2, 0), ("gold", 6, cm), ("gold", 15, 0),
+            ("idx", j as u64 % IDX_VARIANTS, cm), ("idx", 0, 0), ("small", 0, 0), ("small_t", j as u64 % TYPES, 0),
+            ("easy", j as u64 % EASY_VARIANTS, cm), ("easy", 2, 0), ("easy", 6, 0), ("str", j as u64 % 3, 0),
+            ("zip_t", j as u64 % TYPES, 0), ("gold_t", (j as u64 + 1) % TYPES, 0), ("idx_t", (j as u64 + 2) % TYPES, 0), ("easy_t", (j as u64 + 3) % TYPES, 0),
+        ];
+        for (fam, variant, aux) in cells {
+            if n > 1100 && (fam.ends_with("_t") && variant == 6) { continue; } // 1 KiB values: keep the big-value cells small
+            // a capacity such as 4097 leaves two reachable home slots (mask 4096): correct but quadratic
+            if n > 1100 && fam == "zipcap" && !variant.is_power_of_two() { continue; }
+            // EasyHashMap: every put counts the live slots (O(capacity)) and shrink_to_fit leaves such capacities behind
+            if n > 1100 && fam.starts_with("easy") && variant != 0 { continue; }
+            described(&mut cx, fam, variant, aux, "sweep", n, seed);
+        }
+    }
+    // (c) past 2^16 entries (GoldHashMap: bucket counts 57557 -> 116731; standard storage 65536 -> 131072 slots;
+    //     GoldHashIdx 65536 -> 131072 -> 262144); EasyHashMap (O(capacity) per put) only up to 6000
+    let huge_n = 70_000u64;
+    for (fam, variant, aux) in [("zip", 0u64, 0u64), ("zip", 1, 1), ("zipcap", 65536, 0), ("zipdef", 0, 0), ("gold", 0, 0), ("gold", 1, 0), ("gold", 8, 0),
+                                ("idx", 0, 0), ("str", 0, 0), ("zip_t", 2, 0), ("gold_t", 1, 0), ("idx_t", 4, 0)] {
+        described(&mut cx, fam, variant, aux, "huge", huge_n, args.seed % 4);
+    }
+    for variant in [0u64, 4, 6] { described(&mut cx, "easy", variant, 0, "huge", 6000, args.seed % 4); }
+    if args.thorough {
+        for (fam, variant) in [("zip", 0u64), ("gold", 0), ("gold", 7), ("idx", 0)] { described(&mut cx, fam, variant, 0, "huge", 1_100_000, 1); }
+    }
 
     // generated histories
     let rounds = if args.thorough { 4000 } else { 260 };
     for i in 0..rounds {
         let room = cx.shards.len() < cx.budget;
         let max_len = if i % 4 == 0 { 100 } else { 40 };
-        let ops = gen_history(&mut rng, max_len);
+        // every third history contains the secondary entry points as well
+        let wide = i % 3 == 2;
+        let ops = gen_history(&mut rng, max_len, wide);
         if i < 2 { cx.sum.sample(json!({"history": ops.iter().take(10).map(|(c, k, v)| json!([c, k, v])).collect::<Vec<_>>() })); }
-        // ZiporaHashMap: every preset x a hasher
-        for variant in 0..ZIP_VARIANTS {
+        // ZiporaHashMap: every classic preset x a hasher; the breadth variants in rotation
+        for variant in (0..ZIP_CLASSIC).chain([ZIP_CLASSIC + i % (ZIP_VARIANTS - ZIP_CLASSIC), ZIP_CLASSIC + (i + 5) % (ZIP_VARIANTS - ZIP_CLASSIC)]) {
             let mode = if rng.chance(1, 2) { (i + variant) % N_HASHERS } else { rng.below(N_HASHERS) };
-            history(&mut cx, "zip", variant, mode, &ops, room && (variant + i) % 3 == 0);
+            history(&mut cx, "zip", variant, mode, &ops, room && (variant + i) % 3 == 0, None);
         }
-        for variant in [0u64, 1, 3, 9] { history(&mut cx, "zipstr", variant, rng.below(N_HASHERS), &ops, false); }
+        // the library's own hash functions as the caller-supplied hasher
+        history(&mut cx, "zip", [0u64, 1, 9, 10][(i % 4) as usize], N_HASHERS + i % N_LIB_HASHERS, &ops, false, None);
+        for variant in [0u64, 1, 3, 9] { history(&mut cx, "zipstr", variant, rng.below(N_HASHERS), &ops, false, None); }
         let n = *rng.pick(&[0u64, 1, 16, 17, 24, 31, 33, 64, 100]);
-        history(&mut cx, "zipcap", n, 0, &ops, room);
-        for variant in 0..GOLD_VARIANTS { history(&mut cx, "gold", variant, rng.below(4), &ops, room && (variant + i) % 4 == 1 && ops.len() <= 120); }
-        for variant in 0..3 { history(&mut cx, "idx", variant, rng.below(4), &ops, room && (variant + i) % 3 == 0 && ops.len() <= 120); }
-        history(&mut cx, "small", 0, rng.below(4), &ops, room);
-        if ops.iter().all(|o| o.1 < 256) { history(&mut cx, "small_u8", 0, 0, &ops, false); }
-        for variant in 0..5 { history(&mut cx, "easy", variant, rng.below(4), &ops, room && (variant + i) % 5 == 2 && ops.len() <= 120); }
-        history(&mut cx, "str", i % 2, 0, &ops, false);
+        history(&mut cx, "zipcap", n, 0, &ops, room, None);
+        history(&mut cx, "zipctor", i % 4, 0, &ops, room && i % 4 == 1, None);
+        history(&mut cx, "zipdef", (i / 4) % 4, 0, &ops, false, None);
+        for variant in (0..GOLD_CLASSIC).chain([GOLD_CLASSIC + i % (GOLD_VARIANTS - GOLD_CLASSIC)]) {
+            history(&mut cx, "gold", variant, rng.below(4), &ops, room && (variant + i) % 4 == 1 && ops.len() <= 120, None);
+        }
+        for variant in (0..IDX_CLASSIC).chain([IDX_CLASSIC + i % (IDX_VARIANTS - IDX_CLASSIC)]) {
+            history(&mut cx, "idx", variant, rng.below(4), &ops, room && (variant + i) % 3 == 0 && ops.len() <= 120, None);
+        }
+        history(&mut cx, "small", i % 2, rng.below(4), &ops, room, None);
+        if ops.iter().all(|o| o.1 < 256) { history(&mut cx, "small_u8", 0, 0, &ops, false, None); }
+        for variant in (0..EASY_CLASSIC).chain([EASY_CLASSIC + i % (EASY_VARIANTS - EASY_CLASSIC)]) {
+            history(&mut cx, "easy", variant, rng.below(4), &ops, room && (variant + i) % 5 == 2 && ops.len() <= 120, None);
+        }
+        history(&mut cx, "str", i % 3, 0, &ops, false, None);
+        // rarely used key / value types: one type per round on every map family
+        let ty = i % TYPES;
+        for fam in ["zip_t", "gold_t", "idx_t", "small_t", "easy_t"] {
+            if ty == 6 && ops.len() > 150 { continue; }
+            history(&mut cx, fam, ty, rng.below(N_HASHERS), &ops, false, None);
+        }
     }
     // large fills on every cell (one Coq evaluation of the smallest)
     let bigs = if args.thorough { 12 } else { 2 };
     for i in 0..bigs {
         let ops = gen_big(&mut rng);
         cx.sum.dist("big_fill_histories");
-        for variant in 0..ZIP_VARIANTS { history(&mut cx, "zip", variant, [0u64, 1, 6, 4][(i + variant as usize) % 4], &ops, false); }
-        history(&mut cx, "zipcap", 1000, 0, &ops, false);
-        for variant in 0..GOLD_VARIANTS { history(&mut cx, "gold", variant, [0u64, 1][i % 2], &ops, false); }
-        for variant in 0..3 { history(&mut cx, "idx", variant, 0, &ops, false); }
-        history(&mut cx, "small", 0, 0, &ops, false);
-        for variant in 0..5 { history(&mut cx, "easy", variant, 0, &ops, false); }
-        history(&mut cx, "str", 0, 0, &ops, false);
+        for variant in 0..ZIP_VARIANTS { history(&mut cx, "zip", variant, [0u64, 1, 6, 4][(i + variant as usize) % 4], &ops, false, None); }
+        history(&mut cx, "zipcap", 1000, 0, &ops, false, None);
+        for variant in 0..GOLD_VARIANTS { history(&mut cx, "gold", variant, [0u64, 1][i % 2], &ops, false, None); }
+        for variant in 0..IDX_VARIANTS { history(&mut cx, "idx", variant, 0, &ops, false, None); }
+        history(&mut cx, "small", 0, 0, &ops, false, None);
+        for variant in 0..EASY_VARIANTS { history(&mut cx, "easy", variant, 0, &ops, false, None); }
+        history(&mut cx, "str", 0, 0, &ops, false, None);
     }
     cx.sum.dist_max("coq_cases", cx.shards.len() as u64);
     let sh = cx.shards.write(&args.out);
